@@ -10,7 +10,8 @@
      X rid | XF fd op E | XB fd op | Z rid | C sec usec
      P timeout <n> { fd ev } ( A <k> { fd bits } | E0 | E1 )      ev: 1 in, 2 out
      I rid | IB | V rc | INT | DONE | RS | RE rc | SS | SE rc
-   chk04 <trace> / chk05 <trace> -> true | false   (the SPEC's checkers on a given trace) *)
+   (an optional trailing  k <flag>  is for the C driver only: allocations refused during cancels)
+   chk04 <trace> / chk05 <trace> / chk14 <trace> -> true | false   (the SPEC's checkers on a given trace) *)
 
 exception Bad of string
 let toks = ref [||] and pos = ref 0
@@ -131,11 +132,15 @@ let () = iter_lines (fun line ->
       expect "x"; let nx = int () in let xs = times nx parse_xop in
       expect "p"; let np = int () in let pl = times np parse_poll in
       expect "c"; let nc = int () in let cl = times nc (fun () -> let s = num () in let u = num () in (s, u)) in
+      (* optional "k <flag>": the C driver refuses every allocation during cancel calls; cancels
+         cannot fail, so the model's behaviour is the same *)
+      if peek () = "k" then (ignore (next ()); ignore (int ()));
       (match run_case prog xs pl cl fuel with
        | Ok tr -> let b = Buffer.create 256 in Buffer.add_string b "ok"; List.iter (show_event b) tr;
          print_endline (Buffer.contents b)
        | Fault -> print_endline "fault" | AssertFail -> print_endline "assert" | OutOfFuel -> print_endline "fuel")
     | "chk04" -> print_endline (if check_c04 (parse_trace ()) then "true" else "false")
     | "chk05" -> print_endline (if check_c05 (parse_trace ()) then "true" else "false")
+    | "chk14" -> print_endline (if check_c14_events (parse_trace ()) then "true" else "false")
     | _ -> print_endline "bad-case"
   with Bad m -> print_endline ("bad-case " ^ m))
